@@ -22,6 +22,20 @@ type Conv struct {
 	Hooks Hooks
 	// Sites counts the list-construct sites built.
 	Sites int
+	bases map[string]*Statement
+}
+
+// selectorChain returns the dotted text of a pure chain of identifiers, "" for anything else.
+func selectorChain(e ast.Expr) string {
+	switch e := e.(type) {
+	case *ast.Ident:
+		return e.Name
+	case *ast.SelectorExpr:
+		if x := selectorChain(e.X); x != "" {
+			return x + "." + e.Sel.Name
+		}
+	}
+	return ""
 }
 
 // Hooks let a check vary how list constructs are built; all default to the plain variadic form.
@@ -31,6 +45,9 @@ type Hooks struct {
 	Items func(site int, name string, items []Code) []Code
 	// UseFunc chooses the ...Func variant (callback adding the items) for this site.
 	UseFunc func(site int, name string) bool
+	// CloneShared builds every pure selector chain (a.b.c) once per file and hands out a Clone()
+	// of it at each use, the way hand-written generators keep common prefixes.
+	CloneShared bool
 	// EarlyAdd adds every top-level declaration's (still empty) statement to the File first and
 	// completes it afterwards through the retained pointer - the DSL holds statements by reference.
 	EarlyAdd bool
@@ -151,6 +168,20 @@ func (c *Conv) expr(e ast.Expr) *Statement {
 	case *ast.ParenExpr:
 		return Parens(c.expr(e.X))
 	case *ast.SelectorExpr:
+		if key := selectorChain(e); key != "" && c.Hooks.CloneShared {
+			if c.bases == nil {
+				c.bases = map[string]*Statement{}
+			}
+			base, ok := c.bases[key]
+			if !ok {
+				shared := c.Hooks.CloneShared
+				c.Hooks.CloneShared = false
+				base = c.expr(e)
+				c.Hooks.CloneShared = shared
+				c.bases[key] = base
+			}
+			return base.Clone()
+		}
 		if id, ok := e.X.(*ast.Ident); ok && id.Obj == nil {
 			if path, ok := c.pkgs[id.Name]; ok {
 				return Qual(path, e.Sel.Name)
